@@ -46,3 +46,71 @@ class HttpServerRig:
 
     def closed(self, c):
         return self.f[c].closed
+
+
+class HttpClientRig:
+    """a real http.Client whose tcp connectors get scripted sockets (the `socket` module of hio.core.tcp.clienting is
+    replaced for the life of the rig), and a scripted peer that answers the requests it sees on whichever socket the
+    client currently uses"""
+
+    def __init__(self, secure=False):
+        from hio.base import tyming
+        from hio.core import http
+        from hio.core.tcp import clienting
+        self.clienting = clienting
+        self.mod = fakesock.FakeSocketModule(ha=("127.0.0.1", 8080))
+        self.mod.tls = secure
+        self.saved = [(clienting, "socket", clienting.socket)]
+        clienting.socket = self.mod
+        if True:
+            real_wrap = clienting.ClientTls.wrap
+            clienting.ClientTls.wrap = lambda self_: None
+            self.saved.append((clienting.ClientTls, "wrap", real_wrap))
+        self.tymist = tyming.Tymist(tyme=0.0)
+        kw = dict(context=tcpadapt.ctx(False)) if secure else {}
+        self.cli = http.Client(hostname="127.0.0.1", port=8080, scheme="https" if secure else "http",
+                               tymth=self.tymist.tymen(), **kw)
+        self.cli.reopen()
+        self.seen = []          # (host address the request went to, request line, headers dict) in the order the peer saw them
+        self.parsed = {}        # id(fake socket) -> bytes already parsed
+
+    def restore(self):
+        for obj, name, val in reversed(self.saved):
+            setattr(obj, name, val)
+
+    def sock(self):
+        return self.cli.connector.cs
+
+    def new_requests(self):
+        """complete requests that appeared on the current socket since the last call"""
+        s = self.sock()
+        if s is None:
+            return []
+        k = id(s)
+        done = self.parsed.get(k, 0)
+        buf = bytes(s.wire[done:])
+        out = []
+        while b"\r\n\r\n" in buf:
+            head, _, rest = buf.partition(b"\r\n\r\n")
+            lines = head.split(b"\r\n")
+            hdrs = {}
+            for ln in lines[1:]:
+                a, _, b = ln.partition(b":")
+                hdrs[a.strip().lower().decode()] = b.strip().decode()
+            n = int(hdrs.get("content-length", "0"))
+            if len(rest) < n:
+                break
+            out.append({"to": s.ca, "line": lines[0].decode(), "headers": hdrs, "body": rest[:n]})
+            consumed = len(head) + 4 + n
+            done += consumed
+            buf = buf[consumed:]
+        self.parsed[k] = done
+        self.seen.extend(out)
+        return out
+
+    def answer(self, data):
+        self.sock().inbox.extend(data)
+
+    def service(self):
+        self.cli.service()
+        self.tymist.tick()
